@@ -105,6 +105,8 @@ impl Debt {
         R: Fn() -> T,
     {
         LocalNode::with(|local| {
+            #[cfg(arc_swap_verif)]
+            verif_rt::event(verif_rt::probes::PAYALL_ENTER, 0);
             let val = unsafe { T::from_ptr(ptr) };
             // Pre-pay one ref count that can be safely put into a debt slot to pay it.
             T::inc(&val);
@@ -134,6 +136,8 @@ impl Debt {
 
                 None
             });
+            #[cfg(arc_swap_verif)]
+            verif_rt::event(verif_rt::probes::PAYALL_EXIT, 0);
             // Implicit dec by dropping val in here, pair for the above
         })
     }
